@@ -76,7 +76,7 @@ def generate(rng, tier):
         s = Sys(n, n, trip, b, x0, {"fam": fam, "rhs": rhs_kind, "guess": guess_kind})
         tol = pick_tol(g, 3, 12)
         for sv in solvers_for(fam):
-            cases.append(mk_case(sv, s, 20 * n + 100, tol, "%s-%s" % (tag, fam), nontrivial=(n >= 2),
+            cases.extend(mk_cases(sv, s, 20 * n + 100, tol, "%s-%s" % (tag, fam), nontrivial=(n >= 2),
                                  extra={"kappa": kap, "wellposed": True}))
     fams = ["spd", "sdd", "sdd", "sdd-mixed"]
     for t in range(nsmall):
@@ -88,7 +88,7 @@ def generate(rng, tier):
         n = g.range(1, 10) if t % 4 else g.range(11, maxn)
         fam = fams[t % len(fams)]
         emit(n, fam, "degenerate", guess=("exact" if t % 2 == 0 else "zero"), rhs=("plain" if t % 2 == 0 else "zero"))
-    return cases
+    return finalize(cases, PID)
 
 case_from_json = iterlib.case_from_json
 
@@ -97,6 +97,8 @@ STATS = {"demanded_success": 0, "not_attainable_skipped": 0, "max_iters_over_n":
 
 def oracle(case, items):
     m = case.meta
+    if m.get("role") == "tie":
+        return None          # judged through its oracle twin (same system, full answer)
     a = Ans(items)
     s = Sys.from_json(m["sys"])
     n, tol, maxit = s.rows, m["tol"], m["maxit"]
